@@ -56,6 +56,8 @@ ASSUMPTIONS = [
 ]
 
 FINDING = "F8-junk-key-counter-collision"
+FNAME_ = {"properties": "a.properties", "dtd": "a.dtd", "ini": "a.ini", "inc": "a.inc", "po": "a.po",
+          "ftl": "a.ftl", "android": "strings.xml"}
 FORMATS = ["properties", "dtd", "ini", "inc", "po", "ftl", "android"]
 MODEL_PARSE = ["properties", "dtd", "ini", "inc", "po"]
 MODEL_COMPARE = ["ini", "inc"]
@@ -81,6 +83,25 @@ SPECIAL = {
     "ftl": ["# comment\n", "\n", "junk {\n", "-term = T\n", "k =\n    .attr = v\n", "## group\n"],
     "android": ["  <!-- comment -->\n", "\n", '  <plurals name="p"/>\n', "  <string>noname</string>\n"],
 }
+
+
+# names WITHOUT a parser that share an extension or a substring with a supported name
+NEAR = {
+    "android": ["values.xml", "strings.xml.txt", "string.xml", "res/values.xml"],
+    "dtd": ["a.dtd.bak", "a.dtdx", "dtd"],
+    "properties": ["foo.properties.orig", "a.propertiesx", "properties"],
+    "ini": ["a.ini.bak", "a.init"],
+    "inc": ["a.inc.orig", "a.incl"],
+    "ftl": ["a.ftl.txt", "a.ftlx"],
+    "po": ["a.po.bak", "a.pox", "a.potx"],
+}
+# other names WITH a parser
+ALIAS = {
+    "android": ["mystrings.xml", "strings-v2.xml", "res/strings.xml"],
+    "dtd": ["b.dtd"], "properties": ["x.y.properties"], "ini": ["b.ini"], "inc": ["defines.inc"],
+    "ftl": ["b.ftl"], "po": ["a.pot", "b.po"],
+}
+EMPTY = ["", " \n", "\n", "\t"]
 
 
 def entity(fmt, k, v):
@@ -157,16 +178,35 @@ def derive(rng, fmt, items):
 def gen_pair(rng, fmt):
     items = gen_items(rng, fmt)
     ref = wrap(fmt, [t for _, _, t in items], rng)
-    return ref, derive(rng, fmt, items)
+    l10n = derive(rng, fmt, items)
+    r = rng.random()
+    if r < 0.05:
+        l10n = rng.choice(EMPTY)            # zero-byte / white-space only localization
+    elif r < 0.09:
+        ref = rng.choice(EMPTY)             # ... reference
+    return ref, l10n
 
 
 def gen_op(rng, kind=None, fmt=None):
     kind = kind or rng.choice(["parse", "parse", "compare", "compare", "compare", "lint", "merge", "serialize",
-                               "mozmatch", "project", "files"])
+                               "mozmatch", "project", "files", "add", "hasparser"])
     fmt = fmt or rng.choice(FORMATS)
+
+    def rename(op):
+        # sometimes another file name: one without a parser that looks like a supported one, or another supported one
+        r = rng.random()
+        if r < 0.12:
+            op["name"] = rng.choice(NEAR[fmt])
+        elif r < 0.2:
+            op["name"] = rng.choice(ALIAS[fmt])
+        return op
     if kind == "parse":
         ref, l10n = gen_pair(rng, fmt)
         op = {"op": "parse", "fmt": fmt, "text": rng.choice([ref, l10n])}
+        if rng.random() < 0.3:
+            op["via"] = "file"
+            if rng.random() < 0.3:
+                rename(op)
         if fmt not in MODEL_PARSE and rng.random() < 0.3:
             op["keyed"] = True
         return op
@@ -175,13 +215,20 @@ def gen_op(rng, kind=None, fmt=None):
         op = {"op": kind, "fmt": fmt, "ref": ref, "l10n": l10n}
         if fmt == "dtd" and rng.random() < 0.4:
             op["extra"] = ["android-dtd"]
-        return op
+        return rename(op)
     if kind == "lint":
         ref, l10n = gen_pair(rng, fmt)
         op = {"op": "lint", "fmt": fmt, "cur": l10n, "ref": ref if rng.random() < 0.6 else None}
         if fmt == "dtd" and rng.random() < 0.4:
             op["extra"] = ["android-dtd"]
-        return op
+        return rename(op)
+    if kind == "add":
+        ref, l10n = gen_pair(rng, fmt)
+        return rename({"op": "add", "fmt": fmt, "ref": ref})
+    if kind == "hasparser":
+        names = [FNAME_[fmt]] + NEAR[fmt] + ALIAS[fmt]
+        rng.shuffle(names)
+        return {"op": "hasparser", "names": names}
     if kind == "serialize":
         ref, l10n = gen_pair(rng, fmt)
         new = {}
@@ -340,9 +387,54 @@ def model_line(ops):
 
 
 def model_ok(op):
+    if op.get("name"):
+        return False
     if op["op"] == "parse":
         return op["fmt"] in MODEL_PARSE and not op.get("keyed")
     return op["op"] == "compare" and op["fmt"] in MODEL_COMPARE and not op.get("extra")
+
+
+def near_and_empty_histories(ctx, rng):
+    """(a) files whose names have NO parser but look like supported ones, before and after real files of that
+    format; (b) zero-byte and white-space only files as reference / localization / linted file, read through
+    Parser.readFile AFTER the same singleton parser has read a non-empty file"""
+    hs = []
+    for fmt in FORMATS:
+        ref, l10n = gen_pair(rng, fmt)
+        while len(ref) < 8 or len(l10n) < 8:
+            ref, l10n = gen_pair(rng, fmt)
+        real = [{"op": "compare", "fmt": fmt, "ref": ref, "l10n": l10n},
+                {"op": "lint", "fmt": fmt, "cur": l10n, "ref": None},
+                {"op": "parse", "fmt": fmt, "text": ref, "via": "file"}]
+        names = NEAR[fmt] + ALIAS[fmt]
+        if ctx.tier == "quick":
+            names = NEAR[fmt][:3] + ALIAS[fmt][:1]
+        for name in names:
+            near = [{"op": "hasparser", "names": [name]},
+                    {"op": "compare", "fmt": fmt, "ref": ref, "l10n": l10n, "name": name},
+                    {"op": "lint", "fmt": fmt, "cur": l10n, "ref": ref, "name": name},
+                    {"op": "add", "fmt": fmt, "ref": ref, "name": name},
+                    {"op": "parse", "fmt": fmt, "text": ref, "via": "file", "name": name}]
+            hs.append(("near", [rng.choice(real)] + near))              # real file first, then the look-alikes
+            hs.append(("near", near[:2] + [rng.choice(real)] + near))   # look-alike, real, look-alike again
+            for n in near:
+                hs.append(("near", [rng.choice(real), n]))
+        empties = EMPTY if ctx.tier != "quick" else EMPTY[:2]
+        for e in empties:
+            eops = [{"op": "compare", "fmt": fmt, "ref": e, "l10n": l10n},
+                    {"op": "compare", "fmt": fmt, "ref": ref, "l10n": e},
+                    {"op": "compare", "fmt": fmt, "ref": e, "l10n": e},
+                    {"op": "merge", "fmt": fmt, "ref": ref, "l10n": e},
+                    {"op": "lint", "fmt": fmt, "cur": e, "ref": None},
+                    {"op": "lint", "fmt": fmt, "cur": e, "ref": ref},
+                    {"op": "lint", "fmt": fmt, "cur": l10n, "ref": e},
+                    {"op": "add", "fmt": fmt, "ref": e},
+                    {"op": "parse", "fmt": fmt, "text": e, "via": "file"},
+                    {"op": "serialize", "fmt": fmt, "ref": ref, "old": e, "new": []}]
+            for o in eops:
+                hs.append(("empty", [rng.choice(real), o]))
+            hs.append(("empty", [real[0]] + eops))
+    return hs
 
 
 def strip(op):
@@ -437,6 +529,7 @@ def _run(ctx, out, base):
         if a != b:
             histories.append(("mozpair", [{"op": "mozmatch", "pattern": a, "paths": mpaths},
                                           {"op": "mozmatch", "pattern": b, "paths": mpaths}]))
+    histories += near_and_empty_histories(ctx, rng)
     for p in probes:
         pre = rng.choice(junky) if junky else {"op": "parse", "fmt": "ini", "text": "zzz"}
         histories.append(("probe", [pre, p]))
